@@ -133,11 +133,13 @@ func notifierRules(c *Ctx) {
 	// subscriber context cancelled => skipped
 	errIfs, _ := P.IfsOn(fn, func(cond ssa.Value) bool {
 		b, ok := cond.(*ssa.BinOp)
-		if !ok || (b.Op != token.NEQ && b.Op != token.EQL) || !isNilConst(b.Y) {
+		if !ok || (b.Op != token.NEQ && b.Op != token.EQL) {
 			return false
 		}
-		call, ok := b.X.(*ssa.Call)
-		return ok && call.Call.IsInvoke() && call.Call.Method.Name() == "Err" && an.FieldOfAddr(loadAddr(call.Call.Value)) == "notifierSubscriber.ctx"
+		return either(b, func(v ssa.Value) bool {
+			call, ok := v.(*ssa.Call)
+			return ok && call.Call.IsInvoke() && call.Call.Method.Name() == "Err" && an.FieldOfAddr(loadAddr(call.Call.Value)) == "notifierSubscriber.ctx"
+		}, isNilConst)
 	})
 	if len(errIfs) == 1 {
 		ifi := errIfs[0]
@@ -217,7 +219,7 @@ func notifierRules(c *Ctx) {
 		if fc != nil {
 			ctxIfs, _ := P.IfsOn(fn, func(cond ssa.Value) bool {
 				b, ok := cond.(*ssa.BinOp)
-				return ok && b.Op == token.NEQ && isNilConst(b.Y) && an.FieldOfAddr(loadAddr(b.X)) == "notifierSubscriber.ctx"
+				return ok && b.Op == token.NEQ && either(b, func(v ssa.Value) bool { return an.FieldOfAddr(loadAddr(v)) == "notifierSubscriber.ctx" }, isNilConst)
 			})
 			okf := false
 			for _, ifi := range ctxIfs {
@@ -274,19 +276,25 @@ func notifierRules(c *Ctx) {
 			// either through the loop guard (len == 0) or through chosen < len(exitCases)
 			lenIfs, _ := P.IfsOn(fn, func(cond ssa.Value) bool {
 				b, ok := cond.(*ssa.BinOp)
-				if !ok || b.Op != token.NEQ || !isZero(b.Y) {
+				if !ok || b.Op != token.NEQ {
 					return false
 				}
-				call, ok := b.X.(*ssa.Call)
-				if !ok {
-					return false
-				}
-				bi, ok := call.Call.Value.(*ssa.Builtin)
-				return ok && bi.Name() == "len"
+				return either(b, func(v ssa.Value) bool {
+					call, ok := v.(*ssa.Call)
+					if !ok {
+						return false
+					}
+					bi, ok := call.Call.Value.(*ssa.Builtin)
+					return ok && bi.Name() == "len"
+				}, isZero)
 			})
 			exitIfs, _ := P.IfsOn(fn, func(cond ssa.Value) bool {
 				b, ok := cond.(*ssa.BinOp)
-				return ok && b.Op == token.LSS && b.X == chosen
+				if !ok {
+					return false
+				}
+				op, _, isC := cmpOf(b, isVal(chosen))
+				return isC && op == token.LSS
 			})
 			ok := false
 			for _, ifi := range lenIfs {
@@ -322,11 +330,14 @@ func notifierRules(c *Ctx) {
 		})
 		failIfs, _ := P.IfsOn(fn, func(cond ssa.Value) bool {
 			b, ok := cond.(*ssa.BinOp)
-			if !ok || b.Op != token.LSS {
+			if !ok {
 				return false
 			}
-			bo, ok := b.X.(*ssa.BinOp)
-			return ok && bo.Op == token.SUB && bo.X == chosen
+			op, _, isC := cmpOf(b, func(v ssa.Value) bool {
+				bo, ok := v.(*ssa.BinOp)
+				return ok && bo.Op == token.SUB && bo.X == chosen
+			})
+			return isC && op == token.LSS
 		})
 		if len(decs) == 0 || len(failIfs) == 0 {
 			q.add("PATH", "removing a send re-bases the later references on every branch", false, "the decrement of the later failureRefs, or the failure-case branch, was not found")
@@ -367,7 +378,7 @@ func init() {
 				if isUndecided(o) || o.Rule == "ANCHOR" {
 					return true
 				}
-				return ruleIn(o, "G", "B", "P") && funcHas(o, "(*Notifier)")
+				return ruleIn(o, "G", "B", "P", "PX") && funcHas(o, "(*Notifier)")
 			})
 			return append(out, c.C.List...)
 		},
